@@ -23,6 +23,83 @@ type c09Case struct {
 	A     c09Src    `json:"a"`
 	B     *c09Src   `json:"b,omitempty"`
 	Plain gen.Bytes `json:"plain,omitempty"`
+	// very long sources are named, not spelled out: c09LongSrc(len, flip) with window [0, to)
+	LongA *c09Long `json:"long_a,omitempty"`
+	LongB *c09Long `json:"long_b,omitempty"`
+}
+
+type c09Long struct {
+	Len  int   `json:"len"`
+	Flip int   `json:"flip"` // -1: none; otherwise the byte whose top bit is flipped
+	To   int32 `json:"to"`
+}
+
+// c09LongSrc: the generated string of l bytes, byte `flip` with its top bit flipped.
+func c09LongSrc(l, flip int) string {
+	bb := make([]byte, l)
+	for i := range bb {
+		bb[i] = byte(i*29 + 5)
+	}
+	if flip >= 0 {
+		bb[flip] ^= 0x80
+	}
+	return string(bb)
+}
+
+// c09RefCmpPrefix compares the first ta bits of a with the first tb bits of b as bit strings
+// (lexicographic, proper prefix first), byte-wise - for strings too long to render as '0'/'1'.
+func c09RefCmpPrefix(a string, ta int, b string, tb int) int {
+	m := ta
+	if tb < m {
+		m = tb
+	}
+	if x, y := a[:m/8], b[:m/8]; x != y {
+		if x < y {
+			return -1
+		}
+		return 1
+	}
+	if r := m % 8; r != 0 {
+		x, y := a[m/8]>>uint(8-r), b[m/8]>>uint(8-r)
+		if x != y {
+			if x < y {
+				return -1
+			}
+			return 1
+		}
+	}
+	switch {
+	case ta < tb:
+		return -1
+	case ta > tb:
+		return 1
+	}
+	return 0
+}
+
+// c09LongOne judges Len, Cmp (both orders), CmpUpto and StrCmpUpto for one pair of very long sources.
+func c09LongOne(a, b c09Long) (got, want string) {
+	sa, sb := c09LongSrc(a.Len, a.Flip), c09LongSrc(b.Len, b.Flip)
+	ea, p1 := bsNew(sa, 0, a.To)
+	eb, p2 := bsNew(sb, 0, b.To)
+	if p1 != "" || p2 != "" {
+		return "New: " + p1 + p2, "two encodings"
+	}
+	la, p3 := bsLen(ea)
+	ea, eb = gen.DirtyBytes(ea), gen.DirtyBytes(eb)
+	c1, pp1 := bsCmp(ea, eb)
+	c2, pp2 := bsCmp(eb, ea)
+	w := c09RefCmpPrefix(sa, int(a.To), sb, int(b.To))
+	// the plain bytes of a's source against b's encoding: only b's bits count
+	ta := 8 * len(sa)
+	if ta > int(b.To) {
+		ta = int(b.To)
+	}
+	wu := c09RefCmpPrefix(sa, ta, sb, int(b.To))
+	u1, pp3 := bsCmpUpto(gen.DirtyBytes([]byte(sa)), eb)
+	u2, pp4 := bsStrCmpUpto(c09Frames[0].F, sa, eb)
+	return fmt.Sprintf("Len(a)=%s%d Cmp(a,b)=%d Cmp(b,a)=%d CmpUpto(plain a,b)=%d StrCmpUpto=%d panics=%v", p3, la, c1, c2, u1, u2, []bool{pp1, pp2, pp3, pp4}),
+		fmt.Sprintf("Len(a)=%d Cmp(a,b)=%d Cmp(b,a)=%d CmpUpto(plain a,b)=%d StrCmpUpto=%d panics=%v", a.To, w, -w, wu, wu, []bool{false, false, false, false})
 }
 
 func init() {
@@ -31,7 +108,7 @@ func init() {
 		Word32: true,
 		Level:  "exploration",
 		Rule: "E1 bounded-exhaustive enumeration: sources (s,from,to) = every string of length ≤3 over a small byte alphabet, every byte value as a one-byte string, also behind stems of 7/8/9 (thorough: 15/16/17) bytes in 4 variants (first byte 's' / 0x00 / 0xff, eighth byte 0x80), × every 0 ≤ from ≤ to ≤ 8·len, plus EVERY stem length 0..40 with the last 10 bit positions as ends (stemmed: from in {0,8}, to around the stem end and in the tail); per source Len(New(..)) and Cmp with the canonical encoding of the same bit string must be 0; Cmp on ALL ordered pairs of canonical encodings (one per distinct bit string); " +
-			"plus 96 sources of 2^8 and 2^12 (±1) bytes compared in all pairs; CmpUpto and StrCmpUpto (from a fixed alphabet of call frames, after poisoning the dead stack with 0x00 and 0xff) on plain strings × all canonical encodings. Oracle: Go string comparison of '0'/'1' renderings (lexicographic, proper prefix first). A case is one call; non-trivial when both bit strings are non-empty.",
+			"plus 96 sources of 2^8 and 2^12 (±1) bytes compared in all pairs, and 48 sources of 2^16 (±1) bytes (thorough also 2^20+1) in all ordered pairs: Len, Cmp both ways, CmpUpto, StrCmpUpto against a byte-wise reference; CmpUpto and StrCmpUpto (from a fixed alphabet of call frames, after poisoning the dead stack with 0x00 and 0xff) on plain strings × all canonical encodings. Oracle: Go string comparison of '0'/'1' renderings (lexicographic, proper prefix first). A case is one call; non-trivial when both bit strings are non-empty.",
 		Assumptions: []string{
 			"byte values outside the alphabet and longer strings are not enumerated; lengths straddle the 8-byte fast-path switch through the stems",
 			"StrCmpUpto's dependence on neighbouring stack words is covered for the harness's call frames and this toolchain only",
@@ -414,6 +491,37 @@ func c09Run(c *mc.Ctx) {
 		c.Expect(evals)
 		c.Add("big_string_cases", evals)
 	}
+	// very long strings: 2^16 (±1) bytes, thorough also 2^20+1 - lengths and bit counts beyond 16 bits of
+	// range; 16 sources per length (top bit of no byte / the first / the middle / the last byte flipped ×
+	// 4 window ends), all ordered pairs, byte-wise reference
+	{
+		lens := []int{65535, 65536, 65537}
+		if c.Thorough {
+			lens = append(lens, 1<<20+1)
+		}
+		var srcs []c09Long
+		for _, l := range lens {
+			for _, flip := range []int{-1, 0, l / 2, l - 1} {
+				for _, to := range []int32{int32(8 * l), int32(8*l - 3), int32(8*l - 8), int32(8*l - 13)} {
+					srcs = append(srcs, c09Long{l, flip, to})
+				}
+			}
+		}
+		c.Expect(int64(len(srcs)) * int64(len(srcs)))
+		c.Par(len(srcs), func(i int) {
+			if c.TooMany() {
+				return
+			}
+			for j := range srcs {
+				a, b := srcs[i], srcs[j]
+				if g, w := c09LongOne(a, b); g != w {
+					c.Fail(6<<40|int64(i)<<20|int64(j), "Long", "very-long-strings", c09Case{LongA: &a, LongB: &b}, g, w)
+				}
+			}
+			c.Count(int64(len(srcs)), int64(len(srcs)))
+			c.Add("very_long_string_pairs", int64(len(srcs)))
+		})
+	}
 	if n > 40 {
 		b := encs[n/3]
 		c.ForceSample(map[string]interface{}{"fn": "CmpUpto/StrCmpUpto", "plain": fmt.Sprintf("%x", plains[len(plains)/2]), "b_bits": b.bits, "frames": len(c09Frames), "stack_patterns": []string{"0x00", "0xff"}})
@@ -421,6 +529,9 @@ func c09Run(c *mc.Ctx) {
 }
 
 func c09Judge(kind string, cs c09Case) (got, want string) {
+	if kind == "Long" {
+		return c09LongOne(*cs.LongA, *cs.LongB)
+	}
 	abits := c09Bits(string(cs.A.S), cs.A.From, cs.A.To)
 	ea, p := bsNew(string(cs.A.S), cs.A.From, cs.A.To)
 	if kind != "New" && kind != "Len" && p == "" {
